@@ -61,6 +61,14 @@ fn e2e_scenario(seed: u64, i: usize, tier: Tier) -> Outcome {
     let mut wcfg = world_cfg(topo, seed ^ i as u64);
     let storm = if cell.protocol == Protocol::Tcp { *r.pick(&[0u8, 30, 60, 75, 90]) } else { 0 };
     wcfg.faults.bind_in_use_pct = storm;
+    // one TCP world in four: every local port from the one the last ttl of the first round would
+    // use onwards is taken, so the budget runs out while re-issuing the probe of the last ttl
+    let block_last = cell.protocol == Protocol::Tcp && matches!(tcfg.ports, trippy_core::PortDirection::FixedDest(_)) && r.chance(1, 2) && tcfg.initial_sequence <= 64_000;
+    if block_last {
+        wcfg.faults.bind_in_use_pct = 0;
+        let first_blocked = tcfg.initial_sequence + u16::from(tcfg.max_ttl) - 1;
+        wcfg.faults.ports_in_use = (first_blocked..first_blocked.saturating_add(700)).collect();
+    }
     let site = cell.name();
     let replay = replay_of("C07", seed, i, &tcfg, &wcfg.topo);
     if tcfg.initial_sequence > 64_511 && tcfg.builder().build().is_err() {
@@ -84,6 +92,13 @@ fn e2e_scenario(seed: u64, i: usize, tier: Tier) -> Outcome {
             }
         }
         Err(e) => o.violate("run_completes", format!("{site}|{}", e.split(':').next().unwrap_or("")), format!("run failed: {e}"), replay.clone()),
+    }
+    // ... and conversely: a round that used the whole budget ends the trace with that error
+    if run.result.is_ok() {
+        if let Some(r512) = run.rounds.iter().find(|r| r.probes.len() >= 512) {
+            o.hit("exhaustion_is_a_capacity_error");
+            o.violate("exhaustion_is_a_capacity_error", format!("{site}|no-error"), format!("round {} was published with {} slots (the whole sequence budget) and the trace carried on / returned Ok", r512.index, r512.probes.len()), replay.clone());
+        }
     }
     let a = analyse(&w, 0, &run);
     check_outcomes(&w, &a, &run, &tcfg, &mut o, &site, &replay, &E2eOpts { check_ext: false });
